@@ -166,6 +166,10 @@ theorem split_at (cs : List Cell) (i : Nat) (hi : i < cs.length) :
   · simp [idsOf, hi]
   · simp [dataOf, hi]
 
+theorem lastOr_of_ne' {xs : List Cell} (h : xs ≠ []) (p : Option Nat := none) : lastOr xs p = lastOr xs none := by
+  rcases eq_nil_or_snoc xs with e | ⟨ys, b, e⟩
+  · exact absurd e h
+  · subst e; simp
 theorem nxt_none_iff (xs : List Cell) : nxt xs none = none ↔ xs = [] := by cases xs <;> simp
 theorem lastOr_none_iff (xs : List Cell) : lastOr xs none = none ↔ xs = [] := by
   rcases eq_nil_or_snoc xs with e | ⟨ys, b, e⟩ <;> subst e <;> simp
@@ -502,6 +506,50 @@ theorem linkBehind_fresh {h : Heap} {pre post : List Cell} {a : Cell} (new x : N
       have hcb : c ≠ b.1 := fun e => hc (by simp [e])
       rw [setPrev, upd_ne _ _ _ _ hca, setNext, upd_ne _ _ _ _ hcn, setNext, upd_ne _ _ _ _ hcb, setPrev, upd_ne _ _ _ _ hcn]
 
+/-- **`link_after(base, ins)`** for a node `ins` that is not linked anywhere: it is linked in directly behind `base` -/
+theorem linkAfter_fresh {h : Heap} {pre post : List Cell} {a : Cell} (new x : Nat)
+    (hs : Seg h none (pre ++ a :: post) none) (hn : (idsOf (pre ++ a :: post)).Nodup)
+    (hnew : new ∉ idsOf (pre ++ a :: post)) (hx : h new = some ⟨x, none, none⟩) :
+    Seg (linkAfter h a.1 new) none (pre ++ a :: (new, x) :: post) none ∧
+    (∀ b, b ∉ idsOf (pre ++ a :: post) → b ≠ new → (linkAfter h a.1 new) b = h b) := by
+  obtain ⟨n1, n2, na1, na2, nd12, _⟩ := nodup_append_cons hn
+  obtain ⟨s1, ha, s2⟩ := Seg_split hs
+  have hnp : new ∉ idsOf pre := fun hm => hnew (by simp [hm])
+  have hnq : new ∉ idsOf post := fun hm => hnew (by simp [hm])
+  have hna : new ≠ a.1 := fun e => hnew (by simp [e])
+  unfold linkAfter
+  simp only [nd_of hx, nd_of ha]
+  cases post with
+  | nil =>
+    simp only [nxt_nil]
+    refine ⟨?_, fun c hc hcn => ?_⟩
+    · rw [Seg_append, Seg_cons, Seg_cons]
+      refine ⟨?_, ?_, ?_, trivial⟩
+      · exact Seg_upd_notin _ _ hnp (Seg_upd_notin _ _ na1 (Seg_upd_notin _ _ hnp s1))
+      · rw [setNext, upd_ne _ _ _ _ (Ne.symm hna), setNext, upd_eq, setPrev, upd_ne _ _ _ _ (Ne.symm hna), ha]; rfl
+      · rw [setNext, upd_eq, setNext, upd_ne _ _ _ _ hna, setPrev, upd_eq, hx]; rfl
+    · have hca : c ≠ a.1 := fun e => hc (by simp [e])
+      rw [setNext, upd_ne _ _ _ _ hcn, setNext, upd_ne _ _ _ _ hca, setPrev, upd_ne _ _ _ _ hcn]
+  | cons c post' =>
+    have hca : c.1 ≠ a.1 := fun e => na2 (by simp [e])
+    have hcn : c.1 ≠ new := fun e => hnq (by simp [← e])
+    have hcq : c.1 ∉ idsOf post' := by simp only [idsOf_cons, List.nodup_cons] at n2; exact n2.1
+    simp only [nxt_cons]
+    refine ⟨?_, fun d hd hdn => ?_⟩
+    · rw [Seg_append, Seg_cons, Seg_cons]
+      refine ⟨?_, ?_, ?_, ?_⟩
+      · have hcp : c.1 ∉ idsOf pre := fun hm => nd12 c.1 hm (by simp)
+        exact Seg_upd_notin _ _ na1 (Seg_upd_notin _ _ hnp (Seg_upd_notin _ _ hcp (Seg_upd_notin _ _ hnp s1)))
+      · rw [setNext, upd_eq, setPrev, upd_ne _ _ _ _ (Ne.symm hna), setPrev, upd_ne _ _ _ _ (Ne.symm hca), setNext,
+          upd_ne _ _ _ _ (Ne.symm hna), ha]; rfl
+      · rw [setNext, upd_ne _ _ _ _ hna, setPrev, upd_eq, setPrev, upd_ne _ _ _ _ (Ne.symm hcn), setNext, upd_eq, hx]; rfl
+      · have s2' : Seg (setNext h new (some c.1)) (some a.1) (c :: post') none := Seg_upd_notin _ _ hnq s2
+        have s3 := Seg_setPrev_first (some new) s2' hcq
+        exact Seg_upd_notin _ _ na2 (Seg_upd_notin _ _ hnq s3)
+    · have hda : d ≠ a.1 := fun e => hd (by simp [e])
+      have hdc : d ≠ c.1 := fun e => hd (by simp [e])
+      rw [setNext, upd_ne _ _ _ _ hda, setPrev, upd_ne _ _ _ _ hdn, setPrev, upd_ne _ _ _ _ hdc, setNext, upd_ne _ _ _ _ hdn]
+
 /-- **`cc_list_add_at`** -/
 theorem addAt_spec (s : St) (l : Hdr) (cs : List Cell) (x i : Nat) (m : Mem)
     (r : Repr s.heap l cs) (hb : ∀ y, y ∈ idsOf cs → y < s.fresh) :
@@ -630,5 +678,95 @@ theorem destroy_spec (s : St) (l : Hdr) (cs : List Cell) (m : Mem)
     refine ⟨by rw [i3]; simp, ?_, i5, i6⟩
     rw [i4]
     exact (Mem.freeN_succ l.triple _ m).symm
+
+
+/-! ### iterator mutators (the node `iter->last` and `iter->index` are given) -/
+
+/-- **`cc_list_iter_add`**: the new node goes directly behind `iter->last`; `index` is the number of nodes up to and
+including `last` -/
+theorem iterAddAt_spec (s : St) (l : Hdr) (pre post : List Cell) (a : Cell) (x : Nat) (m : Mem)
+    (r : Repr s.heap l (pre ++ a :: post)) (hb : ∀ y, y ∈ idsOf (pre ++ a :: post) → y < s.fresh) :
+    ((m.allocT l.triple).1 = false → iterAddAt s l a.1 (pre.length + 1) x m = (.errAlloc, s, l, (m.allocT l.triple).2)) ∧
+    ((m.allocT l.triple).1 = true →
+      (iterAddAt s l a.1 (pre.length + 1) x m).1 = .ok ∧ (iterAddAt s l a.1 (pre.length + 1) x m).2.2.2 = (m.allocT l.triple).2 ∧
+      Keeps s (iterAddAt s l a.1 (pre.length + 1) x m).2.1 l (iterAddAt s l a.1 (pre.length + 1) x m).2.2.1
+        (pre ++ a :: post) (pre ++ a :: (s.fresh, x) :: post)) := by
+  unfold iterAddAt
+  refine ⟨fun ha => by simp [ha], fun ha => ?_⟩
+  have hf := fresh_notin hb
+  simp only [ha, Bool.not_true, Bool.false_eq_true, if_false, show s.alloc.1 = s.fresh from rfl]
+  have hseg0 : Seg (setData s.alloc.2.heap s.fresh x) none (pre ++ a :: post) none :=
+    Seg_frame (fun b hbm => setData_alloc_ne s x b (fun e => hf (by rw [← e]; exact hbm))) r.seg
+  obtain ⟨lb, lf⟩ := linkAfter_fresh s.fresh x hseg0 r.nodup hf (setData_alloc s x)
+  refine ⟨by first | trivial | rfl, by first | trivial | rfl, ⟨?_, lb, ?_, ?_, ?_⟩, ?_, Nat.le_succ _, ?_, ?_⟩
+  · have := r.nodup
+    simp only [idsOf_append, idsOf_cons] at this hf ⊢
+    rw [List.nodup_append] at this ⊢
+    refine ⟨this.1, ?_, ?_⟩
+    · rw [List.nodup_cons, List.nodup_cons]
+      have h2 := this.2.1
+      rw [List.nodup_cons] at h2
+      refine ⟨?_, ⟨fun hm => hf (List.mem_append_right _ (List.mem_cons_of_mem _ hm)), h2.2⟩⟩
+      intro hm
+      rcases List.mem_cons.1 hm with e | e
+      · exact hf (by rw [← e]; exact List.mem_append_right _ List.mem_cons_self)
+      · exact h2.1 e
+    · intro u hu v hv
+      rcases List.mem_cons.1 hv with e | e
+      · rw [e]; exact this.2.2 u hu _ List.mem_cons_self
+      · rcases List.mem_cons.1 e with e | e
+        · rw [e]; intro e2; exact hf (List.mem_append_left _ (e2 ▸ hu))
+        · exact this.2.2 u hu v (List.mem_cons_of_mem _ e)
+  · split <;> simp [r.size] <;> omega
+  · have := r.head
+    have e2 : nxt (pre ++ a :: (s.fresh, x) :: post) none = nxt (pre ++ a :: post) none := by
+      rw [nxt_append, nxt_append]; rfl
+    rw [e2]; split <;> exact this
+  · have ht := r.tail
+    by_cases hix : pre.length + 1 = l.size
+    · have hp : post = [] := by
+        rw [r.size] at hix
+        simp only [List.length_append, List.length_cons] at hix
+        exact List.eq_nil_of_length_eq_zero (by omega)
+      subst hp
+      simp only [hix, if_true]
+      rw [lastOr_append]; rfl
+    · simp only [hix, if_false]
+      have hp : post ≠ [] := by
+        intro e; subst e; rw [r.size] at hix; simp at hix
+      rw [ht, lastOr_append, lastOr_append]
+      simp only [lastOr_cons]
+      rw [lastOr_of_ne' hp (some a.1), lastOr_of_ne' hp (some s.fresh)]
+  · split <;> rfl
+  · intro u hu
+    simp only [idsOf_append, idsOf_cons, List.mem_append, List.mem_cons] at hu
+    rcases hu with hu | hu | hu | hu
+    · exact Nat.lt_succ_of_lt (hb _ (by simp [hu]))
+    · subst hu; exact Nat.lt_succ_of_lt (hb _ (by simp))
+    · subst hu; exact Nat.lt_succ_self _
+    · exact Nat.lt_succ_of_lt (hb _ (by simp [hu]))
+  · intro u hu hlt
+    rw [lf u hu (Nat.ne_of_lt hlt)]
+    exact setData_alloc_ne s x u (Nat.ne_of_lt hlt)
+
+/-- **`cc_list_diter_add`**: the new node goes directly in front of `iter->last`; `index` is the position of `last` -/
+theorem diterAddAt_spec (s : St) (l : Hdr) (pre post : List Cell) (a : Cell) (x : Nat) (m : Mem)
+    (r : Repr s.heap l (pre ++ a :: post)) (hb : ∀ y, y ∈ idsOf (pre ++ a :: post) → y < s.fresh) :
+    ((m.allocT l.triple).1 = false → diterAddAt s l a.1 pre.length x m = (.errAlloc, s, l, (m.allocT l.triple).2)) ∧
+    ((m.allocT l.triple).1 = true →
+      (diterAddAt s l a.1 pre.length x m).1 = .ok ∧ (diterAddAt s l a.1 pre.length x m).2.2.2 = (m.allocT l.triple).2 ∧
+      Keeps s (diterAddAt s l a.1 pre.length x m).2.1 l (diterAddAt s l a.1 pre.length x m).2.2.1
+        (pre ++ a :: post) (pre ++ (s.fresh, x) :: a :: post)) := by
+  -- the same pointer surgery as `cc_list_add_at` at position `pre.length`
+  have hat := (addAt_spec s l (pre ++ a :: post) x pre.length m r hb).2.2 pre a post rfl rfl
+  have hi : pre.length < (pre ++ a :: post).length := by simp
+  have hid : (idsOf (pre ++ a :: post))[pre.length]? = some a.1 := by simp [idsOf]
+  have e : diterAddAt s l a.1 pre.length x m = addAt s l x pre.length m := by
+    unfold diterAddAt addAt
+    rw [getNodeAt_repr r]
+    simp only [hi, if_true, hid, ok_bne, Bool.false_eq_true, if_false]
+  rw [e]
+  refine ⟨fun ha => ?_, hat⟩
+  exact (addAt_spec s l (pre ++ a :: post) x pre.length m r hb).2.1 hi ha
 
 end CC.PList
